@@ -260,3 +260,11 @@ def expected_codes(reply: Any) -> Optional[Tuple[int, ...]]:
         return None
     objs = reply if isinstance(reply, list) else [reply]
     return tuple((o['error']['code'] if isinstance(o, dict) and 'error' in o else 0) for o in objs)
+
+
+def same_document(a: Any, b: Any) -> bool:
+    """Equality of response documents up to the order of a batch array (the order carries no meaning)."""
+    if isinstance(a, list) and isinstance(b, list):
+        key = lambda v: json.dumps(v, sort_keys=True)  # noqa: E731
+        return len(a) == len(b) and all(json_equal(x, y) for x, y in zip(sorted(a, key=key), sorted(b, key=key)))
+    return json_equal(a, b)
